@@ -21,6 +21,7 @@ RULE = (
     "pickle.dumps/loads after m epochs restarts at epoch 0. Replay buffer: real ReplayBufferDataset on 1-5 batches of unequal widths "
     "(uint8/int64 tokens, arbitrary and prefix masks, empty batches, 1-3 other columns incl. ids): flat_replay_buffer vs "
     "Batch.catReplayBuffer and 2 epochs vs Batch.rbEpoch, exactly. One evaluation = one epoch / one merge / one stream comparison. "
+    "Every yielded batch is serialised when yielded and again after all epochs of its dataset: it must not have changed. "
     "Non-trivial = an epoch of >= 2 rows, a merge of >= 2 different widths; distinct by serialised input."
 )
 TRUSTED = [
@@ -191,17 +192,29 @@ def make_dataset(c):
     return data.Dataset(c["path"], batch_size=c["b"], batches=c["batches"], seed=c["seed"])
 
 
-def run_epochs(ds, k):
-    """k epochs of a real dataset: [(perm, batches_text)]"""
+def run_epochs(ds, k, held=None):
+    """k epochs of a real dataset: [(perm, batches_text)].  Every yielded batch is serialised at the
+    moment it is yielded and kept in `held`: batches are values, later batches / epochs must not
+    change them (see `mutated`)."""
     out = []
     for _ in range(k):
         log = []
+        batches = []
         with recorded_randperm(log):
-            batches = [b.data for b in ds]
+            for b in ds:
+                batches.append(b.data)
+                if held is not None:
+                    held.append((b.data, batches_str([b.data])))
         # the model takes ONE permutation per epoch; with any other number of draws the first one is
         # passed on and the comparison with the model (and then the predicates) decides
         out.append((log[0] if log else (0, []), batches_str(batches), len(log)))
     return out
+
+
+def mutated(held, to_text=None):
+    """indices of held batches whose content no longer is what it was when they were yielded"""
+    to_text = to_text or (lambda d: batches_str([d]))
+    return [i for i, (d, t) in enumerate(held) if to_text(d) != t]
 
 
 def stream_text(ds, k):
@@ -280,6 +293,7 @@ def check_cat(bufs_text, flat_text):
 def tie(ctx):
     import torch
 
+    torch.set_num_threads(1)  # thousands of small tensor ops: thread pools only add overhead
     n_file = 900 if ctx.thorough else 220
     n_rb = 1800 if ctx.thorough else 320
     divs = []
@@ -305,12 +319,16 @@ def tie(ctx):
             ctx.count("file:b-divides" if c["b"] and c["n"] % c["b"] == 0 else "file:b-does-not-divide")
             for kd in c["kinds"]:
                 ctx.count("file:field-" + kd)
+            held = []
             try:
                 ds = make_dataset(c)
-                eps = run_epochs(ds, k)
+                eps = run_epochs(ds, k, held)
             except Exception as e:
                 eps = None
                 err = "crash " + type(e).__name__
+            bad = mutated(held) if eps is not None else []
+            if bad:
+                divs.append(Divergence("impl.retained", dict(desc, check=MUTATED, batch=bad[0]), "batch %d of the stream changed after it was yielded" % bad[0], held[bad[0]][1]))
             if eps is None:
                 ctx.evaluated()
                 divs.append(Divergence("corr.dataset", desc, err, "ok …"))
@@ -387,11 +405,18 @@ def tie(ctx):
                 flat = ds.flat_replay_buffer
                 ftext = "ok " + flat_str(flat)
                 eps = []
+                held = []
                 for _e in range(2):
                     log = []
+                    batches = []
                     with recorded_randperm(log):
-                        batches = [bt.data for bt in ds]
+                        for bt in ds:
+                            batches.append(bt.data)
+                            held.append((bt.data, flat_str(bt.data)))
                     eps.append((log, batches))
+                bad = mutated(held, flat_str)
+                if bad:
+                    divs.append(Divergence("impl.retained", dict(desc, check=MUTATED, batch=bad[0]), "batch %d of the stream changed after it was yielded" % bad[0], held[bad[0]][1]))
             except Exception as e:
                 ctx.evaluated()
                 divs.append(Divergence("corr.dataset", desc, "crash " + type(e).__name__, "ok …"))
@@ -439,7 +464,8 @@ def tie(ctx):
 # ------------------------------------------------------------------ search / replay
 
 
-DIRECT = {"impl.determinism": "nondeterministic", "impl.fastforward": "fastforward", "impl.pickle": "pickle-restart"}
+MUTATED = "batch-mutated-by-later-batch"
+DIRECT = {"impl.determinism": "nondeterministic", "impl.fastforward": "fastforward", "impl.pickle": "pickle-restart", "impl.retained": MUTATED}
 
 
 def explain(d):
@@ -535,8 +561,9 @@ def replay(ctx, data):
             torch.save(tbl, path)
             c = {"path": path, "b": r["b"], "batches": r["batches"], "seed": r["seed"]}
             ds = make_dataset(c)
-            eps = run_epochs(ds, r.get("epochs", 2))
-            keys = []
+            held = []
+            eps = run_epochs(ds, max(2, r.get("epochs", 2)), held)
+            keys = [MUTATED] if mutated(held) else []
             ftable = table_str(tbl)
             for perm, got, _nd in eps:
                 keys += check_epoch(r["b"], r["batches"], perm[1], ftable, got)
@@ -584,8 +611,16 @@ def replay(ctx, data):
         btext = "%d %s" % (len(bufs), " ".join(buffer_str(d) for d in bufs))
         keys = check_cat(btext, flat_str(flat))
         log = []
+        held = []
         with recorded_randperm(log):
-            batches = [bt.data for bt in ds]
+            batches = []
+            for bt in ds:
+                batches.append(bt.data)
+                held.append((bt.data, flat_str(bt.data)))
+        for bt in ds:  # a second epoch, then the batches of the first must be what they were
+            pass
+        if mutated(held, flat_str):
+            keys.append(MUTATED)
         got = "%d %s" % (len(batches), " ".join(" ".join(flat_as_table(bt)) for bt in batches)) if batches else "0"
         keys += check_epoch(r["b"], None, log[0][1] if log else [], "%d %s" % (len(flat), " ".join(flat_as_table(flat))), got)
         for k2 in dict.fromkeys(keys):
